@@ -54,6 +54,8 @@ def SPEC_FILES(names=None):
     """Specification modules a pipeline depends on (all of them when names is None)."""
     if names is None:
         return sorted(os.path.join(SPEC, f) for f in os.listdir(SPEC) if f.endswith(".tla"))
+    # the generator modules are part of EVERY key: a cached judgement is only meaningful for the corpus it was made on
+    names = list(names) + [n for n in ("Gen", "GenEmit", "Prng", "Teal") if n not in names]
     return [os.path.join(SPEC, n + ".tla") for n in names]
 
 
